@@ -276,9 +276,79 @@ def check_hs(case):
                describe_exc(e), labels=labels)
 
 
+def check_early(case):
+    """Level E: records the server cannot decrypt while it is prepared to
+    skip rejected 0-RTT data. Only max_early_data bytes *in total* may be
+    dropped silently; beyond that the garbage must end the connection."""
+    from vlib.deviant import Deviant
+    from vlib import tap
+    n, sz, M = case["n"], case["size"], case["budget"]
+    labels = ["E", "n=%d" % n, "size=%d" % sz]
+    k1, k2 = bytearray(b"1" * 32), bytearray(b"2" * 32)
+    st_ = dict(minVersion=(3, 4), maxVersion=(3, 4))
+    DET.reseed("C02-E", n, sz)
+    p0 = sc.connect({"settings": sc.mk_settings(**st_)},
+                    {"cred": "rsa", "settings": sc.mk_settings(
+                        ticketKeys=[k1], **st_)})
+    if not p0.both_ok:
+        raise BaselineBroken("early:first", "%r %r" % (p0.co, p0.so))
+    sc.do_write(p0, "s", b"x")
+    sc.read_all(p0, "c")
+    state = {}
+
+    def fn(dev, idx, ct, data):
+        if ct != 22 or data[0] != 1 or state.get("done"):
+            return None
+        h = tap.parse_client_hello(data[4:])
+        exts = tap.ext_list(h)
+        if not exts or exts[-1][0] != 41:
+            return None
+        state["done"] = True
+        exts.insert(len(exts) - 1, (42, b""))       # early_data
+        return [(ct, tap.build_client_hello(h["version"], h["random"],
+                                            h["session_id"], h["suites"],
+                                            exts))]
+
+    def mitm(direction, idx, rec):
+        raw = rec["hdr"] + rec["body"]
+        if direction == "c2s" and idx == 0 and not state.get("inj"):
+            state["inj"] = True
+            junk = [bytes([23, 3, 3]) + sz.to_bytes(2, "big") +
+                    prg(b"early%d" % i, sz) for i in range(n)]
+            return [raw] + junk
+        return [raw]
+
+    def prepare(cc, scn):
+        Deviant(cc, fn)
+    p = sc.connect({"settings": sc.mk_settings(**st_),
+                    "session": p0.c.session},
+                   {"cred": "rsa", "settings": sc.mk_settings(
+                       ticketKeys=[k2], max_early_data=M, **st_)},
+                   mitm=mitm, prepare=prepare)
+    if not state.get("done") or not state.get("inj"):
+        return good(nt=False, labels=labels + ["not-applied"])
+    total = n * sz
+    srv = describe_exc(p.so.exc) if p.so.exc else p.so.state
+    labels.append("server=" + srv)
+    if total >= 2 * M:
+        if p.so.ok or not isinstance(p.so.exc, TLSLocalAlert):
+            return bad("undecryptable-records-skipped-beyond-budget",
+                       "%d records of %d bytes (total %d) against "
+                       "max_early_data %d: server ended with %s" % (
+                           n, sz, total, M, srv), labels=labels)
+        return good(labels=labels + ["over-budget-rejected"])
+    if p.so.state == "exc" and not isinstance(
+            p.so.exc, (TLSLocalAlert, TLSRemoteAlert, TLSAbruptCloseError)):
+        return bad("early-data-skip:%s" % type(p.so.exc).__name__, srv,
+                   labels=labels)
+    return good(nt=total > 0, labels=labels + ["within-budget"])
+
+
 def check(case):
     if case.get("level") == "A":
         return check_rl(case)
+    if case.get("level") == "E":
+        return check_early(case)
     if case.get("level") == "H":
         return check_hs(case)
     sid, v, etm = case["suite"], tuple(case["ver"]), case["etm"]
@@ -741,6 +811,9 @@ def explicit(tier, seed):
         {"t": "empty_record", "ctype": 23},
         {"t": "empty_record", "ctype": 21},
     ]
+    for n, sz in ((1, 100), (3, 500), (2, 1000), (5, 900), (8, 600),
+                  (40, 120), (3, 2000), (30, 1000)):
+        yield {"level": "E", "n": n, "size": sz, "budget": 2000}
     for v in ((3, 4), (3, 3), (3, 1)):
         for d in "cs":
             for auth in (False, True):
